@@ -285,6 +285,24 @@ func runC19(c *Ctx) {
 		}
 	}
 	c.Run("c19.vbytes", "nil")
+	// uint8-prefixed strings: every declared length against every shorter, equal and longer body around the ends of the
+	// byte range (a length computed in uint8 arithmetic wraps at 255 + 1), in exact-capacity buffers
+	for _, dl := range []int{0, 1, 2, 127, 128, 253, 254, 255} {
+		for _, have := range []int{0, 1, dl - 2, dl - 1, dl, dl + 1, 254, 255, 256, 300} {
+			if have < 0 {
+				continue
+			}
+			b8 := append([]byte{byte(dl)}, r.Bytes(have)...)
+			b8 = b8[:len(b8):len(b8)]
+			out := c.Run("c19.u8bytes", hx(b8))
+			c.Count("u8bytes:boundary")
+			want := "ok nil -1"
+			if have >= dl {
+				want = fmt.Sprintf("ok %s %d", hxv(b8[1:1+dl]), dl+1)
+			}
+			c.Direct(out == want, "uint8-prefixed string: wrong result for a declared length against the bytes present", map[string]any{"declared": dl, "present": have, "impl": out, "expected": want})
+		}
+	}
 	c.Run("c19.u8bytes", "nil")
 	c.Run("c19.consume", "nil")
 	// AppendUint8Bytes refuses more than 255 bytes
